@@ -284,8 +284,20 @@ func burst(c vcase, r *vres) {
 		r.Err = "keygen: " + err.Error()
 		return
 	}
+	silent := 0
 	for i := 0; i < c.Rounds; i++ {
-		r.Rounds = append(r.Rounds, burstRound(rng, c.K, i < c.Keep, dom, strings.Join(labels, "."), priv))
+		rd := burstRound(rng, c.K, i < c.Keep, dom, strings.Join(labels, "."), priv)
+		r.Rounds = append(r.Rounds, rd)
+		// a round in which some client was sent nothing costs its full waiting time: one of them is enough to report
+		for _, cl := range rd.Clients {
+			if cl.NResp == 0 {
+				silent++
+				break
+			}
+		}
+		if silent >= 1 {
+			break
+		}
 	}
 	r.Ok = true
 }
